@@ -107,13 +107,28 @@ def accPrompt (evs : List TEv) : Option (Nat × String) :=
 def sanitize (s : String) : String :=
   String.ofList (s.toList.map fun c => if c == '\t' || c == '\n' || c == '|' then ' ' else c)
 
+/-- Clauses that say *when* something happens (bounds, deadlines, exact instants): they assume code that takes no time
+    and are not applied to a trace recorded with a log sink that takes its time. -/
+def timedClause (prop clause : String) : Bool :=
+  prop == "C03" || prop == "C06" || prop == "C11" || prop == "C17" || prop == "HYP" ||
+  clause == "stop-exceeds-its-timeout" || clause == "takeover-not-prompt" || clause == "health-demotion-missing" ||
+  clause == "not-re-elected-after-health-demotion" || clause == "follower-leaderid-not-converged" || clause == "leader-demoted-fault-free" ||
+  -- ("quiescent" means every goroutine is blocked - also one that sleeps in the sink between lowering the flag and the callback)
+  clause == "callbacks-do-not-mirror-leadership" || clause == "callbacks-unbalanced-at-the-end" || clause == "gauge-stale"
+
 def TraceAcc.finish (a : TraceAcc) : String :=
   let m := Mon.run a.evs.toList
-  let fails := m.w.fails.reverse.map fun f => s!"{f.prop}|{f.clause}|{f.line}|{sanitize f.detail}"
+  let kept := m.w.fails.reverse.filter fun f => !(m.slow && timedClause f.prop f.clause)
+  let fails := kept.map fun f => s!"{f.prop}|{f.clause}|{f.line}|{sanitize f.detail}"
   let store := m.w.storeMismatch.reverse.map fun s => s!"STORE|store-model|0|{sanitize s}"
   let cov := m.w.cov.map fun (k, n) => s!"COV|{k}|{n}|"
   -- implementation models: does the model accept (= can it produce) this trace?
-  let acc := [("Own", accOwn a.evs.toList), ("Life", accLife a.evs.toList), ("HB", accHB a.evs.toList), ("Conn", accConn a.evs.toList), ("Val", accVal a.evs.toList), ("Lease", accLease a.evs.toList), ("Cand", accCand a.evs.toList), ("Prompt", accPrompt a.evs.toList)]
+  -- (a trace recorded with a log sink that takes its time is checked by the models that speak about order only: the ones
+  --  that speak about when something happens assume code that takes no time)
+  let slow := a.evs.toList.any fun e => match e.ev with | .slowSink => true | _ => false
+  let lifeEvs := if slow then a.evs.toList.filter (fun e => match e.ev with | .status .. => false | _ => true) else a.evs.toList
+  let acc := [("Own", accOwn a.evs.toList), ("Life", accLife lifeEvs)] ++
+    (if slow then [] else [("HB", accHB a.evs.toList), ("Conn", accConn a.evs.toList), ("Val", accVal a.evs.toList), ("Lease", accLease a.evs.toList), ("Cand", accCand a.evs.toList), ("Prompt", accPrompt a.evs.toList)])
   let accItems := acc.map fun (name, r) =>
     match r with
     | none => s!"ACC|{name}|0|ok"
